@@ -3,6 +3,8 @@
 From stdpp Require Import gmap.
 From Coq Require Import NArith.
 From RV Require Import Ingress.IngressModel Rib.RibModel Bmp.BmpModel Bmp.BmpProofs.
+From RV Require Import Pipe.PipeModel Pipe.PipeRaw Bmp.BmpStreamModel Bmp.BmpWireAbs Bmp.BmpWireAbsProofs.
+From RV Require Bgp.BgpModel Bmp.BmpWire Bmp.BmpWireProofs.
 Local Open Scope N_scope.
 
 (* phases: initiating < dumping < updating < terminated; the phase after any
@@ -64,3 +66,143 @@ Example C05_example :
   [OTransition; OOther; OUpdate (UBulk [MkPay (0, 1, 1) true 7; MkPay (0, 2, 1) true 7]);
    OTransition; OUpdate (UWithdraw 1 None); OInvalid; OTransition; OInvalid].
 Proof. vm_compute. reflexivity. Qed.
+
+(* ====================================================================== *)
+(* BMP on the wire: the messages above as octets (Bmp/BmpWire.v: an RFC 7854 codec aligned with what
+   routecore accepts; Bmp/BmpWireAbs.v: what the state machine reads of a decoded message). *)
+
+(* the decoder undoes the encoder on every well-formed message (boolean well-formedness = the decoder's checks) *)
+Theorem C05_wire_roundtrip : forall m, BmpWire.wf m = true -> BmpWire.decode (BmpWire.encode m) = Some m.
+Proof. exact BmpWireProofs.roundtrip. Qed.
+Print Assumptions C05_wire_roundtrip.
+
+(* framing: the stream loop (io.rs bmp_read + the parser) cuts the concatenation of any number of encodings
+   back into exactly these messages - each one consumes exactly its length field *)
+Theorem C05_wire_framing : forall ms, List.forallb BmpWire.wf ms = true ->
+  BmpWire.stream (List.concat (List.map BmpWire.encode ms)) = (List.map BmpWire.SMsg ms, BmpWire.SEnd).
+Proof. exact BmpWireProofs.stream_of_encodings. Qed.
+Print Assumptions C05_wire_framing.
+
+(* ... and so does the model of bmp_read that C06/C07 are proved about (BmpStreamModel), on any script of read events *)
+Theorem C05_wire_bmp_read : forall m evs,
+  bmp_read (map EByte (BmpWire.encode m) ++ evs) = RdFrame (BmpWire.encode m) evs.
+Proof. exact bmp_read_encoded. Qed.
+Print Assumptions C05_wire_bmp_read.
+
+(* the malformed classes - fewer than six octets, a version other than 3, a length field that is not the
+   length of the frame, a type above 6, a peer type above 3, a message cut short anywhere, a message with
+   octets added - are refused: the state machine is not entered *)
+Theorem C05_wire_malformed_is_unparsable :
+  (forall b, BgpModel.lenN b < 6 -> wire_msg b = None) /\
+  (forall ver r, ver <> 3 -> wire_msg (ver :: r) = None) /\
+  (forall ver l3 l2 l1 l0 r, BmpWire.u32 l3 l2 l1 l0 <> BgpModel.lenN (ver :: l3 :: l2 :: l1 :: l0 :: r) ->
+      wire_msg (ver :: l3 :: l2 :: l1 :: l0 :: r) = None) /\
+  (forall ver l3 l2 l1 l0 ty body, 6 < ty -> wire_msg (ver :: l3 :: l2 :: l1 :: l0 :: ty :: body) = None) /\
+  (forall ver l3 l2 l1 l0 ty pt r, ty <> 4 -> ty <> 5 -> 3 < pt -> wire_msg (ver :: l3 :: l2 :: l1 :: l0 :: ty :: pt :: r) = None) /\
+  (forall m k, (k < length (BmpWire.encode m))%nat -> wire_msg (take k (BmpWire.encode m)) = None) /\
+  (forall m x, x <> [] -> wire_msg (BmpWire.encode m ++ x) = None).
+Proof. exact unparsable_classes. Qed.
+Print Assumptions C05_wire_malformed_is_unparsable.
+
+Theorem C05_wire_unparsable_never_enters : forall r rid s frame, wire_msg frame = None -> wire_step r rid s frame = None.
+Proof. exact wire_step_unparsable. Qed.
+Print Assumptions C05_wire_unparsable_never_enters.
+
+(* the stream loop gives the connection up on a length field below 5 and yields nothing from an incomplete message *)
+Theorem C05_wire_stream_short_length : forall v l3 l2 l1 l0 r, BmpWire.u32 l3 l2 l1 l0 < 5 ->
+  BmpWire.stream (v :: l3 :: l2 :: l1 :: l0 :: r) = ([], BmpWire.SShort).
+Proof. exact BmpWireProofs.stream_short_length. Qed.
+Print Assumptions C05_wire_stream_short_length.
+
+Theorem C05_wire_stream_cut : forall m k, BmpWire.wf m = true -> (k < length (BmpWire.encode m))%nat ->
+  fst (BmpWire.stream (List.firstn k (BmpWire.encode m))) = [].
+Proof. exact BmpWireProofs.stream_cut. Qed.
+Print Assumptions C05_wire_stream_cut.
+
+(* the peer table's key: two per-peer headers are the same peer for the model exactly when routecore's
+   PartialEq says so - peer type, the whole flags octet, distinguisher, the address as address() reads it
+   (4 octets with V = 0, 16 with V = 1), AS, BGP id; never the timestamp *)
+Theorem C05_wire_peer_identity : forall p q, BmpWire.pph_wf p = true -> BmpWire.pph_wf q = true ->
+  (abs_pph p = abs_pph q <-> ident p = ident q).
+Proof. exact abs_pph_ident. Qed.
+Print Assumptions C05_wire_peer_identity.
+
+(* what the state machine reads of each message type - and nothing else *)
+Theorem C05_wire_initiation_reads_nothing : forall ts ts', abstract (BmpWire.WInit ts) = abstract (BmpWire.WInit ts').
+Proof. exact abstract_initiation. Qed.
+Print Assumptions C05_wire_initiation_reads_nothing.
+
+Theorem C05_wire_termination_reads_nothing : forall ts ts', abstract (BmpWire.WTerm ts) = abstract (BmpWire.WTerm ts').
+Proof. exact abstract_termination. Qed.
+Print Assumptions C05_wire_termination_reads_nothing.
+
+Theorem C05_wire_statistics_reads_peer : forall p p' st st' tr tr', abs_pph p = abs_pph p' ->
+  abstract (BmpWire.WStats p st tr) = abstract (BmpWire.WStats p' st' tr').
+Proof. exact abstract_statistics. Qed.
+Print Assumptions C05_wire_statistics_reads_peer.
+
+Theorem C05_wire_mirroring_is_statistics : forall p p' d d' st tr, abs_pph p = abs_pph p' ->
+  abstract (BmpWire.WMirror p d) = abstract (BmpWire.WMirror p' d') /\
+  abstract (BmpWire.WMirror p d) = abstract (BmpWire.WStats p st tr).
+Proof. exact abstract_mirroring. Qed.
+Print Assumptions C05_wire_mirroring_is_statistics.
+
+Theorem C05_wire_peer_down_reads_peer : forall p p' rs rs' d d', abs_pph p = abs_pph p' ->
+  abstract (BmpWire.WPeerDown p rs d) = abstract (BmpWire.WPeerDown p' rs' d').
+Proof. exact abstract_peer_down. Qed.
+Print Assumptions C05_wire_peer_down_reads_peer.
+
+Theorem C05_wire_peer_up_reads_peer_and_gr : forall p p' la la' lp lp' rp rp' s s' rc rc' i i',
+  abs_pph p = abs_pph p' -> BmpWire.has_cap 64 rc = BmpWire.has_cap 64 rc' ->
+  abstract (BmpWire.WPeerUp p la lp rp s rc i) = abstract (BmpWire.WPeerUp p' la' lp' rp' s' rc' i').
+Proof. exact abstract_peer_up. Qed.
+Print Assumptions C05_wire_peer_up_reads_peer_and_gr.
+
+Theorem C05_wire_route_monitoring_reads_peer_and_pdu : forall p p' d d', abs_pph p = abs_pph p' -> route_pdu d = route_pdu d' ->
+  abstract (BmpWire.WRoute p d) = abstract (BmpWire.WRoute p' d').
+Proof. exact abstract_route_monitoring. Qed.
+Print Assumptions C05_wire_route_monitoring_reads_peer_and_pdu.
+
+(* the PDU is delimited by its own length field; an UPDATE from C04's encoder is read as C04's decoder reads it *)
+Theorem C05_wire_pdu_delimited : forall u tr, BgpModel.wf u = true ->
+  route_upd (BgpModel.encode u ++ tr) = Some (upd_of_update u).
+Proof. exact route_upd_encoded. Qed.
+Print Assumptions C05_wire_pdu_delimited.
+
+(* C05 over octets: an encoded message is Invalid exactly when it is a lifecycle violation ... *)
+Theorem C05_wire_invalid_iff_violation : forall r rid s m, BmpWire.wf m = true ->
+  exists res, wire_step r rid s (BmpWire.encode m) = Some res /\ (res.2 = OInvalid <-> violates s (abstract m) = true).
+Proof. exact wire_invalid_iff_violation. Qed.
+Print Assumptions C05_wire_invalid_iff_violation.
+
+(* ... a session over the octet stream of any sequence of encoded messages is the session over the messages
+   (so every theorem above speaks about streams of octets) ... *)
+Theorem C05_wire_session_is_message_run : forall r rid s ms, List.forallb BmpWire.wf ms = true ->
+  wire_session r rid s (concat (map BmpWire.encode ms)) =
+  let '(r', s', os) := sm_run r rid s (map abstract ms) in (r', s', map Some os).
+Proof. exact wire_session_encoded. Qed.
+Print Assumptions C05_wire_session_is_message_run.
+
+(* ... and over ANY sequence of frames, refused ones included, the phase only moves forward *)
+Theorem C05_wire_phase_monotone : forall r rid s f1 f2,
+  phase_idx (sm_phase (wire_frames r rid s f1).1.2) <= phase_idx (sm_phase (wire_frames r rid s (f1 ++ f2)).1.2).
+Proof. exact wire_frames_phase_monotone. Qed.
+Print Assumptions C05_wire_phase_monotone.
+
+(* the pipeline: a Route Monitoring frame around an encoded UPDATE is the wire-level operation of C01 (Pipe/PipeRaw.v) *)
+Theorem C05_wire_route_monitoring_is_raw_bmp : forall k p u tr, BgpModel.wf u = true ->
+  BmpWire.wf (BmpWire.WRoute p (BgpModel.encode u ++ tr)) = true ->
+  wire_bmp k (BmpWire.encode (BmpWire.WRoute p (BgpModel.encode u ++ tr))) = Some (raw_bmp k (abs_pph p) (BgpModel.encode u)) /\
+  raw_bmp k (abs_pph p) (BgpModel.encode u) = WMsg k (MRoute (abs_pph p) (Some (upd_of_update u))).
+Proof. exact wire_bmp_route_monitoring. Qed.
+Print Assumptions C05_wire_route_monitoring_is_raw_bmp.
+
+(* nine messages as octets: Initiation; Peer Up (received OPEN with graceful restart); a route; a second Peer Up for
+   the same peer (other timestamp, other OPENs, an information TLV): Invalid; a route for the post-policy view that is
+   not up: Invalid; Peer Down reason 2; Peer Down again: Invalid; Termination; Statistics after it: Invalid *)
+Example C05_wire_example :
+  List.forallb BmpWire.wf ex_session = true /\
+  exists u, (wire_session reg_new 5 sm_init (concat (map BmpWire.encode ex_session))).2 =
+  [Some OTransition; Some OOther; Some (OUpdate u); Some OInvalid; Some OInvalid;
+   Some (OUpdate (UWithdraw 1 None)); Some OInvalid; Some OTransition; Some OInvalid].
+Proof. split; [vm_compute; reflexivity|eexists; vm_compute; reflexivity]. Qed.
